@@ -84,6 +84,9 @@ type hcmd struct {
 type hping struct{ ch chan struct{} }
 type hprobe struct{}
 
+// hwho: the receiver answers with its own pid (resolves a name / alias through the node tables)
+type hwho struct{ ch chan gen.PID }
+
 type hactor struct {
 	act.Actor
 	h   *hist
@@ -138,6 +141,8 @@ func (a *hactor) HandleMessage(from gen.PID, message any) error {
 	case hping:
 		close(m.ch)
 	case hprobe:
+	case hwho:
+		m.ch <- a.PID()
 	case gen.MessageExitPID:
 		a.note(false, a.h.coqTarget(m.PID), m.Reason)
 	case gen.MessageExitProcessID:
@@ -572,6 +577,101 @@ func genHistOp(r *rand.Rand, h *hist, first bool) hOp {
 	return o
 }
 
+// agreement evaluates, on the REAL node after the history, the invariant proved for the model
+// (C06_agreement_hist): for every live actor the name / alias list / event set of its own process
+// record (gen.ProcessInfo: p.name, p.aliases, p.events) are exactly the names / aliases / events the
+// node tables resolve to it, without duplicates, and nothing resolves to a process that is not listed.
+func (h *hist) agreement() []string {
+	var bad []string
+	resolve := func(to any) (gen.PID, bool) {
+		ch := make(chan gen.PID, 1)
+		if err := h.node.Send(to, hwho{ch}); err != nil {
+			return gen.PID{}, false
+		}
+		select {
+		case p := <-ch:
+			return p, true
+		case <-time.After(5 * time.Second):
+			bad = append(bad, fmt.Sprintf("%v accepts a message but nobody handles it", to))
+			return gen.PID{}, false
+		}
+	}
+	live := map[gen.PID]gen.ProcessInfo{}
+	if l, err := h.node.ProcessList(); err == nil {
+		for _, p := range l {
+			for _, rec := range h.recs {
+				if rec.pid == p {
+					if info, err := h.node.ProcessInfo(p); err == nil {
+						live[p] = info
+					}
+				}
+			}
+		}
+	}
+	aliasOwner := map[gen.Alias]gen.PID{}
+	eventOwner := map[gen.Atom]gen.PID{}
+	for p, info := range live {
+		for _, a := range info.Aliases {
+			if q, dup := aliasOwner[a]; dup {
+				bad = append(bad, fmt.Sprintf("alias %v listed twice (records of %v and %v)", a, q, p))
+			}
+			aliasOwner[a] = p
+		}
+		for _, e := range info.Events {
+			if q, dup := eventOwner[e]; dup {
+				bad = append(bad, fmt.Sprintf("event %s listed twice (records of %v and %v)", e, q, p))
+			}
+			eventOwner[e] = p
+		}
+	}
+	known := map[gen.Alias]bool{}
+	for i, a := range h.aliases {
+		known[a] = true
+		q, ok := resolve(a)
+		owner, listed := aliasOwner[a]
+		switch {
+		case ok && !listed:
+			bad = append(bad, fmt.Sprintf("alias #%d resolves to %v but is in no live record", i+1, q))
+		case ok && owner != q:
+			bad = append(bad, fmt.Sprintf("alias #%d resolves to %v but is in the record of %v", i+1, q, owner))
+		case !ok && listed:
+			bad = append(bad, fmt.Sprintf("alias #%d is in the record of %v but does not resolve", i+1, owner))
+		}
+	}
+	for a, p := range aliasOwner {
+		if !known[a] {
+			bad = append(bad, fmt.Sprintf("record of %v lists an alias %v nobody created", p, a))
+		}
+	}
+	for n := uint64(1); n <= 3; n++ {
+		name := atomName(n)
+		q, ok := resolve(gen.ProcessID{Name: name, Node: h.node.Name()})
+		if ok {
+			if info, isLive := live[q]; !isLive || info.Name != name {
+				bad = append(bad, fmt.Sprintf("name %s resolves to %v whose record has name %q", name, q, info.Name))
+			}
+		}
+		for p, info := range live {
+			if info.Name == name && (!ok || q != p) {
+				bad = append(bad, fmt.Sprintf("record of %v has name %s but the name table does not resolve it to that process", p, name))
+			}
+		}
+		_, err := h.node.RegisterEvent(name, gen.EventOptions{})
+		if err == nil {
+			h.node.UnregisterEvent(name)
+		}
+		owner, listed := eventOwner[name]
+		switch {
+		case err == nil && listed:
+			bad = append(bad, fmt.Sprintf("event %s is in the record of %v but is free in the event table", name, owner))
+		case err == gen.ErrTaken && !listed:
+			bad = append(bad, fmt.Sprintf("event %s is taken in the event table but is in no live record", name))
+		}
+	}
+	sort.Strings(bad)
+	return bad
+}
+
 func (h *hist) snapshot(nextpid uint64, steps []string) string {
 	// observed notes per actor
 	var actors []string
@@ -703,6 +803,11 @@ func runHist(n int, out string, replay string) {
 			}
 			seen[a] = true
 		}
+		if bad := h.agreement(); len(bad) > 0 {
+			c.Tags = append(c.Tags, "agreement")
+			o.Monitor = append(o.Monitor, util.MonitorFail{Case: len(o.Cases), What: "record/table agreement: " + strings.Join(bad, "; "), Tags: []string{"agreement"}})
+		}
+		o.Stats["agreement-checked"]++
 		term := 0
 		for _, rec := range h.recs {
 			if rec.isTerminated() {
